@@ -7,6 +7,7 @@ import E57.Drv.Enc
 import E57.Drv.Tools
 import E57.Drv.SFloat
 import E57.Drv.DevIO
+import E57.Drv.Xml
 open E57 E57.Drv
 
 def dispatch (engine : String) (toks : List String) : String :=
@@ -25,6 +26,7 @@ def dispatch (engine : String) (toks : List String) : String :=
   | "copy" => writerLine toks
   | "sfloat" => sfloatLine toks
   | "devio" => devioLine toks
+  | "xml" => xmlToks toks
   | _ => "BADENGINE"
 
 partial def loop (engine : String) (h : IO.FS.Stream) (out : IO.FS.Stream) : IO Unit := do
